@@ -42,6 +42,66 @@ static void poison_heap(long nt) {
     for (size_t k = 0; k < blocks.size(); ++k) delete[] blocks[k];
 }
 
+
+// ---- reduced teams -------------------------------------------------------------------
+// in_team(mode, k, f): run f() so that the parallel regions it opens get a team of k threads
+// although more threads were configured at set-up; see the op comments below for the modes.
+namespace vqt {
+struct info { int team, mx; };
+static info probe() {
+    info r; r.mx = omp_get_max_threads(); r.team = -1;
+#pragma omp parallel
+    {
+#pragma omp single
+        r.team = omp_get_num_threads();
+    }
+    return r;
+}
+template <class F> static std::string guarded(F &f) {
+    try { return f(); }
+    catch (const std::exception &e) { return std::string("EXC ") + e.what(); }
+    catch (...) { return "EXC unknown"; }
+}
+static std::string head(const info &i) {
+    std::ostringstream os; os << "team=" << i.team << " max=" << i.mx << " "; return os.str();
+}
+template <class F> static std::string in_team(long mode, long k, F f) {
+    info ti; ti.team = ti.mx = -1; std::string out;
+    if (mode == 0) {
+        omp_set_num_threads((int)k);
+        ti = probe(); out = guarded(f);
+        return head(ti) + out;
+    }
+    if (mode == 1) {
+        int kk = (int)k;
+#pragma omp teams num_teams(1) thread_limit(kk)
+        {
+            ti = probe(); out = guarded(f);
+        }
+        return head(ti) + out;
+    }
+    if (mode == 2) {
+        int lev = omp_get_max_active_levels();
+        omp_set_max_active_levels(1);
+        info t2[2]; std::string o[2]; int outer = 0;
+        t2[0].team = t2[0].mx = t2[1].team = t2[1].mx = -1;
+#pragma omp parallel num_threads(2)
+        {
+            int t = omp_get_thread_num();
+#pragma omp single
+            outer = omp_get_num_threads();
+            if (t < 2) { t2[t] = probe(); o[t] = guarded(f); }
+        }
+        omp_set_max_active_levels(lev);
+        if (outer != 2) return "BADTEAM outer=" + std::to_string(outer);
+        if (head(t2[0]) != head(t2[1])) return "BADTEAM " + head(t2[0]) + "| " + head(t2[1]);
+        if (o[0] != o[1]) return head(t2[0]) + "NONDET " + o[0] + " | " + o[1];
+        return head(t2[0]) + o[0];
+    }
+    return "BADMODE";
+}
+}
+
 // ---- table dump -------------------------------------------------------------------
 // payload: <nthreads> then per thread: [b e b e ...] [ord ...] {k ncols | c:v ... | ...} ([D ...])
 template <class P, class V>
@@ -193,6 +253,87 @@ template <class V> struct G {
         p.do_trunc = (trunc != 0);
         amgcl::coarsening::ruge_stuben<Backend> c(p); poison_heap(nt_); return transfer(c, *A); }
 
+    // ---- executions whose OpenMP team is smaller than the thread count seen at set-up ----
+    // <nt> = omp_set_num_threads before set-up, <k> = size of the executing team, <mode>:
+    //   0  omp_set_num_threads(k) between set-up and call             (max = k,  team = k)
+    //   1  call inside  #pragma omp teams num_teams(1) thread_limit(k) (max = nt, team = k)
+    //   2  call from both threads of an enclosing active parallel region, nested
+    //      parallelism off (each thread on its own copy of the data)   (max = nt, team = 1)
+    //   3  like 1, set-up inside the limited region as well
+    //   4  like 2, set-up inside the enclosing region as well (one object per outer thread)
+    // The payload starts with "team=<omp_get_num_threads() seen in a probe region at the call
+    // site> max=<omp_get_max_threads() there>": the model prints what the mode is meant to give.
+    // gs_team <forward> <nt> <k> <mode> A rhs x : gauss_seidel (serial = false) apply_pre / apply_post
+    static std::string gs_team(Tok &t) {
+        long fwd = t.i(), nt = t.i(), k = t.i(), mode = t.i(); auto A = t.crsT<V>(); vec rhs = t.vecT<V>(); vec x0 = t.vecT<V>();
+        set_threads(nt);
+        typename GS::params prm; prm.serial = false; typename Backend::params bprm;
+        std::shared_ptr<GS> gs0;
+        if (mode < 3) gs0 = std::make_shared<GS>(*A, prm, bprm);
+        return vqt::in_team(mode < 3 ? mode : mode - 2, k, [&]() -> std::string {
+            std::shared_ptr<GS> gs = gs0; if (!gs) gs = std::make_shared<GS>(*A, prm, bprm);
+            if (acc::gs_is_serial(*gs)) return "SERIAL";
+            std::set<std::string> seen; vec tmp(x0.size());
+            for (int rep = 0; rep < 2; ++rep) {
+                vec x = x0;
+                if (fwd) gs->apply_pre(*A, rhs, x, tmp); else gs->apply_post(*A, rhs, x, tmp);
+                seen.insert(show(x));
+            }
+            return join(seen); });
+    }
+    // ilu_team <nt> <k> <mode> L U D x : ilu_solve (serial = false) solve
+    static std::string ilu_team(Tok &t) {
+        long nt = t.i(), k = t.i(), mode = t.i();
+        auto L = t.crsT<V>(); auto U = t.crsT<V>(); vec d = t.vecT<V>(); vec x0 = t.vecT<V>();
+        auto D = std::make_shared< be::numa_vector<V> >(d.size(), false);
+        for (size_t i = 0; i < d.size(); ++i) (*D)[i] = d[i];
+        set_threads(nt);
+        typename ILU::params prm; prm.serial = false;
+        std::shared_ptr<ILU> s0;
+        if (mode < 3) s0 = std::make_shared<ILU>(L, U, D, prm);
+        return vqt::in_team(mode < 3 ? mode : mode - 2, k, [&]() -> std::string {
+            std::shared_ptr<ILU> s = s0; if (!s) s = std::make_shared<ILU>(L, U, D, prm);
+            std::set<std::string> seen;
+            for (int rep = 0; rep < 2; ++rep) { vec x = x0; s->solve(x); seen.insert(show(x)); }
+            return join(seen); });
+    }
+    // tt.<kernel> <nt> <k> <mode> ... : the row-parallel backend primitives in a reduced team
+    static std::string tt_spmv(Tok &t) { long nt = t.i(), k = t.i(), mode = t.i(); set_threads(nt);
+        V alpha = t.val<V>(); auto A = t.crsT<V>(); vec x = t.vecT<V>(); V beta = t.val<V>(); vec y0 = t.vecT<V>();
+        return vqt::in_team(mode, k, [&]() -> std::string { vec y = y0; be::spmv(alpha, *A, x, beta, y); return show(y); }); }
+    static std::string tt_residual(Tok &t) { long nt = t.i(), k = t.i(), mode = t.i(); set_threads(nt);
+        vec f = t.vecT<V>(); auto A = t.crsT<V>(); vec x = t.vecT<V>(); vec r0 = t.vecT<V>();
+        return vqt::in_team(mode, k, [&]() -> std::string { vec r = r0; be::residual(f, *A, x, r); return show(r); }); }
+    static std::string tt_axpby(Tok &t) { long nt = t.i(), k = t.i(), mode = t.i(); set_threads(nt);
+        V a = t.val<V>(); vec x = t.vecT<V>(); V b = t.val<V>(); vec y0 = t.vecT<V>();
+        return vqt::in_team(mode, k, [&]() -> std::string { vec y = y0; be::axpby(a, x, b, y); return show(y); }); }
+    static std::string tt_axpbypcz(Tok &t) { long nt = t.i(), k = t.i(), mode = t.i(); set_threads(nt);
+        V a = t.val<V>(); vec x = t.vecT<V>(); V b = t.val<V>(); vec y = t.vecT<V>(); V c = t.val<V>(); vec z0 = t.vecT<V>();
+        return vqt::in_team(mode, k, [&]() -> std::string { vec z = z0; be::axpbypcz(a, x, b, y, c, z); return show(z); }); }
+    static std::string tt_vmul(Tok &t) { long nt = t.i(), k = t.i(), mode = t.i(); set_threads(nt);
+        V a = t.val<V>(); vec x = t.vecT<V>(); vec y = t.vecT<V>(); V b = t.val<V>(); vec z0 = t.vecT<V>();
+        return vqt::in_team(mode, k, [&]() -> std::string { vec z = z0; be::vmul(a, x, y, b, z); return show(z); }); }
+    static std::string tt_inner(Tok &t) { long nt = t.i(), k = t.i(), mode = t.i(); set_threads(nt);
+        vec x = t.vecT<V>(); vec y = t.vecT<V>();
+        return vqt::in_team(mode, k, [&]() -> std::string { return show(be::inner_product(x, y)); }); }
+    static std::string tt_product(Tok &t) { long nt = t.i(), k = t.i(), mode = t.i(); set_threads(nt);
+        auto A = t.crsT<V>(); auto B = t.crsT<V>();
+        return vqt::in_team(mode, k, [&]() -> std::string { auto C = be::product(*A, *B);
+            return "U " + vq::show_crs(*C, false) + " S " + vq::show_crs(*C, true); }); }
+    static std::string tt_rmerge(Tok &t) { long nt = t.i(), k = t.i(), mode = t.i(); set_threads(nt);
+        auto A = t.crsT<V>(); auto B = t.crsT<V>();
+        return vqt::in_team(mode, k, [&]() -> std::string { M C; be::spgemm_rmerge(*A, *B, C); return vq::show_crs(C, true); }); }
+    static std::string tt_sum(Tok &t) { long nt = t.i(), k = t.i(), mode = t.i(); set_threads(nt);
+        V a = t.val<V>(); auto A = t.crsT<V>(); V b = t.val<V>(); auto B = t.crsT<V>();
+        return vqt::in_team(mode, k, [&]() -> std::string { auto C = be::sum(a, *A, b, *B); return vq::show_crs(*C, false); }); }
+    static std::string tt_transpose(Tok &t) { long nt = t.i(), k = t.i(), mode = t.i(); set_threads(nt);
+        auto A = t.crsT<V>();
+        return vqt::in_team(mode, k, [&]() -> std::string { auto T = be::transpose(*A); return vq::show_crs(*T, false); }); }
+    static std::string tt_gershgorin(Tok &t) { long nt = t.i(), k = t.i(), mode = t.i(); set_threads(nt);
+        long scale = t.i(); auto A = t.crsT<V>();
+        return vqt::in_team(mode, k, [&]() -> std::string {
+            V r = scale ? be::spectral_radius<true>(*A, 0) : be::spectral_radius<false>(*A, 0); return show(r); }); }
+
     static void reg(const std::string &pfx) {
         auto &r = vq::registry();
         r[pfx + "gs_sched"] = gs_sched; r[pfx + "gs_sweep"] = gs_sweep;
@@ -201,6 +342,11 @@ template <class V> struct G {
         r[pfx + "t.axpbypcz"] = axpbypcz; r[pfx + "t.vmul"] = vmul; r[pfx + "t.product"] = product;
         r[pfx + "t.sum"] = msum; r[pfx + "t.transpose"] = transpose; r[pfx + "t.gershgorin"] = gershgorin;
         r[pfx + "t.aggr"] = aggr; r[pfx + "t.saggr"] = saggr; r[pfx + "t.rs"] = rs;
+        r[pfx + "gs_team"] = gs_team; r[pfx + "ilu_team"] = ilu_team;
+        r[pfx + "tt.spmv"] = tt_spmv; r[pfx + "tt.residual"] = tt_residual; r[pfx + "tt.axpby"] = tt_axpby;
+        r[pfx + "tt.axpbypcz"] = tt_axpbypcz; r[pfx + "tt.vmul"] = tt_vmul; r[pfx + "tt.inner"] = tt_inner;
+        r[pfx + "tt.product"] = tt_product; r[pfx + "tt.rmerge"] = tt_rmerge; r[pfx + "tt.sum"] = tt_sum;
+        r[pfx + "tt.transpose"] = tt_transpose; r[pfx + "tt.gershgorin"] = tt_gershgorin;
     }
 };
 
